@@ -285,13 +285,46 @@ def c12_paths(ctx):
     c02_3(ctx)
     c07_who(ctx)
 
-RULES = [c12_1, c12_2, c12_3, c12_4, c12_macro_steps, c12_state, c12_paths]
+def c12_macro_operands(ctx):
+    ctx.rule('C12.5', 'the constraints configured for a macro\'s own operands are enforced like an instruction\'s', 3)
+    mg = ctx.repo.func('bespokeasm.assembler.bytecode.generator.macro.MacroBytecodeGenerator.generate_variant_bytecode_parts')
+    ci = ctx.repo.func('bespokeasm.assembler.bytecode.assembled.CompositeAssembledInstruction.__init__')
+    cc = [c for c in ast.walk(mg.node) if isinstance(c, ast.Call) and unparse(c.func) == 'CompositeAssembledInstruction']
+    pn = ci.call_params[2].arg if len(ci.call_params) > 2 else None
+    ok = len(cc) == 1 and pn is not None
+    detail = 'the composite is built without the macro operands\' parts'
+    if ok:
+        a = bind_args(cc[0], ci).get(pn)
+        d = deref(ctx, mg, a, cc[0]) if a is not None else None
+        txt = unparse(d) if d is not None else ''
+        ok = d is not None and 'matched_operands.operands' in txt and '.bytecode' in txt and '.argument' in txt and isinstance(d, (ast.ListComp, ast.GeneratorExp))
+        detail = txt[:160]
+    ctx.check(ok, 'macro-operands:parts-handed-to-composite', mg.site(cc[0]) if cc else mg.site(),
+              'the code and argument parts of every matched macro operand are handed to the composite instruction', detail)
+    st = self_attr_stores(ci.node, '_operand_parts')
+    ctx.check(len(st) == 1 and pn is not None and pn in unparse(st[0][2]), 'macro-operands:kept', ci.site(), 'the composite keeps those parts', '; '.join(unparse(x[0]) for x in st))
+    gb = ctx.repo.func('bespokeasm.assembler.bytecode.assembled.CompositeAssembledInstruction.get_bytes')
+    res = resolver(ctx, gb, inline=False)
+    loops = [l for l in walk_no_nested(gb.node) if isinstance(l, ast.For) and unparse(l.iter) == 'self._operand_parts']
+    ok = len(loops) == 1
+    if ok:
+        gv = [c for c in ast.walk(loops[0]) if isinstance(c, ast.Call) and isinstance(c.func, ast.Attribute) and c.func.attr == 'get_value' and unparse(c.func.value) == unparse(loops[0].target)]
+        ok = len(gv) == 1 and filter_facts_at(ctx, gb, gv[0], res) == [] and [unparse(x) for x in gv[0].args[:2]] == [gb.call_params[0].arg, gb.call_params[1].arg]
+        g = ctx.cfg(gb)
+        ok = ok and all(g.dominates(g.node_of(loops[0]), g.node_of(r)) for r in returns(gb) if r.value is not None and not (isinstance(r.value, ast.Constant) and r.value.value is None))
+    ctx.check(ok, 'macro-operands:evaluated', gb.site(loops[0]) if loops else gb.site(),
+              'every kept part is evaluated (in the line\'s scope, at the macro\'s address) before bytes are returned: min/max, enumeration, zone and sliced-address checks fire',
+              'the macro operands\' parts are never evaluated: `sh2 7` is accepted although the operand is restricted to {1, 2}')
+
+
+RULES = [c12_1, c12_2, c12_3, c12_4, c12_macro_steps, c12_state, c12_paths, c12_macro_operands]
 
 _P = 'assembler/bytecode/parts.py'
 _R = 'assembler/model/operand/types/relative_address.py'
 _A = 'assembler/model/operand/types/address.py'
 _PB = 'assembler/bytecode/packed_bits.py'
 MUTANTS = [
+    V('c12-macro-operands-unchecked', 'assembler/bytecode/assembled.py', "        for part in self._operand_parts:\n            part.get_value(label_scope, instruction_address, self.byte_size)\n", "", 'C12.5'),
     V('c12-max-ge', _P, "if self._max is not None and value > self._max:", "if self._max is not None and value >= self._max:", 'C12.1'),
     V('c12-min-dropped', _P, "        if self._min is not None and value < self._min:\n            sys.exit(f'ERROR: {self.line_id} - operand value of {value} is less than minimum allowed of {self._min}')\n", "", 'C12.1'),
     V('c12-swap-max-min', 'assembler/model/operand/types/numeric_bytecode.py', "            self.bytecode_max,\n            self.bytecode_min,", "            self.bytecode_min,\n            self.bytecode_max,", 'C12.2'),
